@@ -76,6 +76,8 @@ impl Case {
 }
 
 const REAL_FAULTS: [&str; 5] = ["missing-directory", "path-is-directory", "parent-is-file", "name-too-long", "dev-full"];
+/// destination states that are not faults: a longer file, a shorter file, a symbolic link to a longer file
+const PREEXISTING: [&str; 3] = ["existing-longer", "existing-shorter", "existing-symlink"];
 const EACCES: i32 = 13;
 const EROFS: i32 = 30;
 const EMFILE: i32 = 24;
@@ -101,6 +103,11 @@ pub fn jobs(ctx: &Ctx) -> Vec<Case> {
                     out.push(Case { png, version, optset, fault: fault.to_string(), errno, k, chunk, seed: mix(ctx.seed, n) });
                 };
                 push("none", 0, 0, 0);
+                // the destination already exists (no fault): the result must still be exactly the rendering
+                for f in PREEXISTING {
+                    push(f, 0, 0, 0);
+                }
+                push("existing-longer-short-writes", 0, 0, 512);
                 for f in REAL_FAULTS {
                     push(f, 0, 0, 0);
                 }
@@ -159,13 +166,31 @@ pub fn observe(ctx: &Ctx, st: &mut Stats, c: &Case, idx: usize) {
         }
         "name-too-long" => dir.join(format!("{}.{ext}", "n".repeat(300))),
         "dev-full" => PathBuf::from("/dev/full"),
+        "existing-longer" | "existing-longer-short-writes" => {
+            // longer than any rendering of this workload (V40 SVG with two layers is about 1.2 MB)
+            let p = dir.join(format!("out.{ext}"));
+            let _ = std::fs::write(&p, vec![0xAAu8; 6 << 20]);
+            p
+        }
+        "existing-shorter" => {
+            let p = dir.join(format!("out.{ext}"));
+            let _ = std::fs::write(&p, b"stale");
+            p
+        }
+        "existing-symlink" => {
+            let real = dir.join(format!("real.{ext}"));
+            let _ = std::fs::write(&real, vec![0x55u8; 6 << 20]);
+            let p = dir.join(format!("out.{ext}"));
+            let _ = std::os::unix::fs::symlink(&real, &p);
+            p
+        }
         _ => dir.join(format!("out.{ext}")),
     };
     let log = dir.join("shim.log");
     let exe = std::env::current_exe().expect("current_exe");
     let mut cmd = Command::new(exe);
     cmd.arg("c19-child").arg(c.to_json().to_string()).arg(&target).stdout(Stdio::piped()).stderr(Stdio::piped());
-    let injected = matches!(c.fault.as_str(), "create-fails" | "write-fails" | "short-writes" | "eintr");
+    let injected = matches!(c.fault.as_str(), "create-fails" | "write-fails" | "short-writes" | "eintr" | "existing-longer-short-writes");
     if injected {
         let mode = match c.fault.as_str() {
             "create-fails" => "open",
@@ -248,6 +273,9 @@ pub fn observe(ctx: &Ctx, st: &mut Stats, c: &Case, idx: usize) {
                     return;
                 }
                 st.count("ok_files_compared_with_in_memory_rendering", 1);
+                if c.fault.starts_with("existing-") {
+                    st.count("preexisting_destinations_overwritten_exactly", 1);
+                }
                 st.count("bytes_compared", bytes.len() as u64);
             }
             Err(e) => {
@@ -331,11 +359,11 @@ pub fn run(ctx: &Ctx) -> Report {
     st.sets.remove("unreached");
     let mut rep = Report::new(
         st,
-        "cases = {SVG, PNG} x versions {1,7,40} (thorough: all 40) x option sets x fault classes: none; real faults: missing directory (ENOENT), path is a directory (EISDIR), parent is a regular file (ENOTDIR), over-long name (ENAMETOOLONG), /dev/full (ENOSPC at write time); injected by an LD_PRELOAD shim scoped to the case's scratch directory: create fails with EACCES/EROFS/EMFILE, first write fails with ENOSPC/EIO/EDQUOT, k-th write of a chunked stream fails (k in 2,3,5,9; 1024-byte chunks; 7-byte chunks), every write short (7 / 4096 bytes), EINTR on every other write (with and without short writes); each case runs to_file in a child process; the shim logs every interception and every fault actually DELIVERED; oracle: Ok(()) => the file's bytes equal the in-memory rendering computed in the same child; a delivered hard fault => Err(_) converted through ConvertError::from, normal exit, no panic; only benign perturbations => Ok with full content; a configured fault that was never reached is counted separately and is not a pass for the error half; distinct key = case; every case non-trivial",
+        "cases = {SVG, PNG} x versions {1,7,40} (thorough: all 40) x option sets x fault classes: none; destination already exists (6 MiB longer file, 5-byte shorter file, symbolic link to a longer file, longer file + short writes): Ok must leave exactly the rendering, no stale tail; real faults: missing directory (ENOENT), path is a directory (EISDIR), parent is a regular file (ENOTDIR), over-long name (ENAMETOOLONG), /dev/full (ENOSPC at write time); injected by an LD_PRELOAD shim scoped to the case's scratch directory: create fails with EACCES/EROFS/EMFILE, first write fails with ENOSPC/EIO/EDQUOT, k-th write of a chunked stream fails (k in 2,3,5,9; 1024-byte chunks; 7-byte chunks), every write short (7 / 4096 bytes), EINTR on every other write (with and without short writes); each case runs to_file in a child process; the shim logs every interception and every fault actually DELIVERED; oracle: Ok(()) => the file's bytes equal the in-memory rendering computed in the same child; a delivered hard fault => Err(_) converted through ConvertError::from, normal exit, no panic; only benign perturbations => Ok with full content; a configured fault that was never reached is counted separately and is not a pass for the error half; distinct key = case; every case non-trivial",
     );
     rep.level = "fault_enumeration";
-    rep.expected_sets = vec![("fault_classes", 10), ("fault_class_x_format", 20)];
-    rep.required_sets = vec![("fault_classes", 10), ("fault_class_x_format", 20)];
+    rep.expected_sets = vec![("fault_classes", 14), ("fault_class_x_format", 28)];
+    rep.required_sets = vec![("fault_classes", 14), ("fault_class_x_format", 28)];
     rep.min_evaluations = 100;
     rep.assumptions = vec![
         "faults are injected at the libc boundary (open*/creat/write); Rust std and tiny-skia reach the kernel through these symbols (checked by the shim's interception log)".into(),
